@@ -38,7 +38,72 @@ def scenarios(seed, tier):
         elif ok and i % 10 == 7:
             c = ST.focus_holding(c, r1)
         yield 'st%d' % i, c
+    from ..comp import periodic as PE
+    for i in range(n // 6):
+        r1 = random.Random(rnd.getrandbits(48))
+        c = PE.gen_case(r1, oracle=True, atype='Storage', kind=r1.choice(['freq', 'per', 'perdur', 'freq']))
+        c['focus']['args'].pop('cost_store', None)
+        yield 'pe%d' % i, {'_stream': 'pe', 'case': c}
+
+
+def run_pe(case):
+    """a storage with periodicity or on a coarser frequency, optimised in a portfolio: physical level (start level +
+    efficiency x charged - discharged + inflow, per FINE step, from the solution vector and the dispatch rows of the
+    storage) within [0, size], back at the end level, and equal to the reported fill level"""
+    import numpy as np
+    from ..comp import periodic as PE
+    from .. import impl
+    r = {'evaluated': 1, 'nontrivial': False, 'features': ['stream:coarse-or-periodic', 'opt:' + '+'.join(sorted(case['opt']))], 'disagreements': [], 'violations': []}
+    try:
+        portf, tg, prices = PE.real_portfolio(case)
+        op, res, out = PE.solve_portfolio(portf, tg, prices)
+    except Exception as e:
+        r['features'].append('setup-error:' + impl.err_class(e))
+        return r
+    if out is None:
+        r['features'].append('unsolved')
+        return r
+    a = case['focus']['args']
+    eff = float(a.get('eff_in', 1.0))
+    m = op.mapping
+    mm = m[(m['asset'] == 'X') & (m['type'] == 'd')]
+    fac = mm['disp_factor'].fillna(1.).values if 'disp_factor' in mm.columns else np.ones(len(mm))
+    flow = np.zeros(tg.T)
+    x = np.asarray(res.x, dtype=float)
+    for i, t, f in zip(mm.index, mm['time_step'].values, fac):
+        v = -x[int(i)] * f
+        flow[int(t)] += v * eff if v > 0 else v
+    infl = float(a.get('inflow', 0.0))
+    level = float(a.get('start_level', 0.0)) + np.cumsum(flow + infl * np.asarray(tg.dt, dtype=float))
+    size = float(a['size'])
+    tol = 1e-6 * max(1.0, size)
+    facts = {'opt': sorted(case['opt']), 'kind': 'coarse_or_periodic'}
+
+    def viol(orc, msg):
+        r['violations'].append({'oracle': orc, 'detail': msg, 'facts': facts})
+    steps = sorted(set(int(t) for t in mm['time_step'].values))
+    if steps and steps == list(range(tg.T)) and 'start' not in a and 'end' not in a:
+        bad = np.where((level < -tol) | (level > size + tol))[0]
+        if len(bad):
+            viol('storage.level_bounds', 'physical level %.6g at step %d outside [0, %g] (%s)' % (level[bad[0]], int(bad[0]), size, case['opt']))
+        if abs(level[-1] - float(a.get('end_level', 0.0))) > tol:
+            viol('storage.end_level', 'physical level at the last step %.6g, end level %g (%s)' % (level[-1], float(a.get('end_level', 0.0)), case['opt']))
+        col = 'X_fill_level'
+        iv = out.get('internal_variables')
+        if iv is not None and col in iv.columns:
+            rep = iv[col].values.astype(float)
+            d = np.abs(rep - level)
+            if d.max() > tol:
+                t = int(np.argmax(d))
+                viol('storage.reported', 'reported fill level %.6g at step %d, physical level %.6g (%s)' % (rep[t], t, level[t], case['opt']))
+            r['features'].append('reported-level-compared')
+        r['nontrivial'] = bool(np.abs(flow).max() > 1e-7)
+    else:
+        r['features'].append('skip:partial-cover')
+    return r
 
 
 def run_case(case, drv):
+    if case.get('_stream') == 'pe':
+        return run_pe(case['case'])
     return ST.run_case(case, drv)
